@@ -271,11 +271,11 @@ let query (p : pool) toks : string =
        | Some { e_obj = OT t; _ } ->
            Printf.sprintf "text=%s s.text=%s" (hex_of_name (display_table uwidth t))
              (hex_of_name (to_string_formatted uwidth SEmpty FWord FWord t))
-       | Some { e_obj = OE x; _ } -> Printf.sprintf "text=%s" (hex_of_name (display x))
+       | Some { e_obj = OE x; e_opaque = o; _ } -> if o then "text=*" else Printf.sprintf "text=%s" (hex_of_name (display x))
        | _ -> "skip")
   | ["show"; i] ->
       (match get i with
-       | Some { e_obj = OE x; _ } -> Printf.sprintf "show=%s" (hex_of_name (display x))
+       | Some { e_obj = OE x; e_opaque = o; _ } -> if o then "show=*" else Printf.sprintf "show=%s" (hex_of_name (display x))
        | _ -> "skip")
   | "roundtrip" :: i :: flags ->
       (* flags: `printable` (names are identifiers other than keywords, no empty And/Or: the text must
@@ -298,7 +298,8 @@ let query (p : pool) toks : string =
        | _ -> "skip")
   | ["preds"; i] ->
       (match get i with
-       | Some { e_obj = OE x; _ } ->
+       | Some { e_obj = OE x; e_opaque = o; _ } ->
+           if o then "nnf=* cnf=* dnf=*" else
            Printf.sprintf "nnf=%d cnf=%d dnf=%d" (Bool.to_int (is_nnf x)) (Bool.to_int (is_cnf x)) (Bool.to_int (is_dnf x))
        | _ -> "skip")
   | t :: _ -> raise (Bad ("query " ^ t))
